@@ -422,6 +422,22 @@ def run_trace(tr, source):
     ev = source[HOOK_OF[kind]]
     calls_out = []
     signal.signal(signal.SIGALRM, _alarm)
+    if tr.get("prehist") and kind != "optgp":
+        # pre-history (not judged): the same analysis ran serially on THIS model object while the model was in another
+        # state (first boundary reaction closed); the documented results do not depend on what was computed before
+        OBS.update(call=-1, ds=0, init=None, seq=0, pid=os.getpid(), model=model, tok="%d-pre" % os.getpid(), fh=None)
+        bnd = [r for r in model.reactions if r.boundary]
+        if bnd:
+            old = bnd[0].bounds
+            signal.alarm(tr.get("call_timeout", 60))
+            try:
+                bnd[0].bounds = (0, 0)
+                invoke(model, kind, dict(tr["calls"][0], P=1), names, 0)
+            except Exception:       # whatever the analysis says about that other state
+                pass
+            finally:
+                signal.alarm(0)
+                bnd[0].bounds = old
     for ci, call in enumerate(tr["calls"]):
         call_id = tr["tid"] * 1000 + ci
         OBS.update(call=call_id, ds=call["ds"], init=None, seq=0, pid=os.getpid(), model=model,
@@ -461,7 +477,7 @@ def run_trace(tr, source):
             rec["left_clean"] = False
             model = build_model(tr["inst"], names)
         calls_out.append(rec)
-    return {"tid": tr["tid"], "inst": tr["inst"], "kind": kind, "ev": ev, "calls": calls_out}
+    return {"tid": tr["tid"], "inst": tr["inst"], "kind": kind, "ev": ev, "calls": calls_out, "prehist": bool(tr.get("prehist"))}
 
 
 def _driver_main(job_path, out_path):
@@ -601,7 +617,7 @@ def _specs(cases, tier, sd):
         for kd in case["kinds"]:
             tid += 1
             spec = {"tid": tid, "inst": case["inst"], "kind": kd["kind"], "calls": kd["calls"], "palette": pal,
-                    "call_timeout": 60}
+                    "call_timeout": 60, "prehist": tid % 2 == 1}
             j = (tid + ci) % nd
             jobs[j][1].append(spec)
             meta[tid] = {"case": case["k"], "palette": pal["name"], "hashseed": jobs[j][0]}
